@@ -455,11 +455,16 @@ Menu ==
 
 \* ------------------------------------------------------------------ machine
 InitState == [env |-> [v \in Vars |-> Undef], h |-> InitHeap, ok |-> TRUE]
+\* generator bound on value sizes (repeated `x * 2`, `x + x` would otherwise double without end)
+Small(S) == /\ Len(S.h) <= 60
+            /\ \A a \in 1..Len(S.h) : Len(S.h[a].e) <= 6
+            /\ \A v \in Vars : Len(S.env[v].s) <= 6 /\ S.env[v].i \in (0 - 1000)..1000
 Init == prog = <<>> /\ sp = InitState /\ sa = [c \in Configs |-> InitState]
 Step(st, S, F) == IF S.ok THEN Exec(st, S, F) ELSE S          \* a rejected program stays rejected
 Next == /\ Len(prog) < MaxStmts
         /\ \E st \in Menu : LET np == Exec(st, sp, NoFlaws) IN
                              /\ np.ok                          \* CPython does not raise: the program is in the property's domain
+                             /\ Small(np)                      \* generator bound: values stay small
                              /\ prog' = Append(prog, st)
                              /\ sp' = np
                              /\ sa' = [c \in Configs |-> Step(st, sa[c], FlawsOf(c))]
